@@ -9,10 +9,28 @@ from .common import calls_matching, where
 
 
 def _diverging_panic_blocks(F):
-    out = set()
+    """Blocks from which no return is reachable on normal edges and which lead to a panic call: the
+    failure side of an `assert!` (with a message the panic call sits several blocks behind the test -
+    the format arguments are built first)."""
+    cfg = CFG(F)
+    can_return = set()
+    work = [b for b in cfg.return_blocks()]
+    while work:
+        x = work.pop()
+        if x in can_return:
+            continue
+        can_return.add(x)
+        work.extend(cfg.pred.get(x, []))
+    panics_ = set()
     for bid, blk in F.blocks.items():
         t = blk.term
         if t is not None and t.kind == 'call' and re.search(r'core::panicking::|std::rt::begin_panic|panic_fmt|assert_failed', t.func or ''):
+            panics_.add(bid)
+    out = set()
+    for bid, blk in F.blocks.items():
+        if blk.cleanup or bid in can_return:
+            continue
+        if bid in panics_ or (cfg.reachable_from(bid) & panics_):
             out.add(bid)
     return out
 
